@@ -17,9 +17,9 @@ from contracts import c_lowering as CL
 from olvc import extract, sym
 from olvc.evaluator import Machine
 from olvc.interp import Frame, HFn, IGen, IRaise, IStop, ifunc_of
-from olvc.oblig import paths_or_undecided
+from olvc.oblig import fail_or_gap, paths_or_undecided
 from olvc.runner import explore
-from olvc.sym import Fold, Opaque, Seg, SInt, ctx, tagstr
+from olvc.sym import Fold, Opaque, Seg, SInt, Unsupported, ctx, tagstr
 from olvc.tmpl import Hole
 from spec import control, target_lang as TL
 from suites import c05, c07, c13
@@ -248,7 +248,8 @@ def g_convert_step(R, tier):
                     return holder["child"]
                 ns_at_dispatch = []
                 m = Machine(stubs={"oneliner.namespaces:generate_nsp": lambda it, s, cfg: G, "oneliner.pending_nodes:PendingPass": pass_stub})
-                fr = Frame(ifn, dict(ast_root=Opaque("root", ast.Module), symtable_root=Opaque("st", object), configs=Opaque("cfg", object)), ifn.globals, [], name="convert")
+                P_ROOT, P_SYMT, P_CFG = [a_.arg for a_ in ifn.node.args.args][:3]
+                fr = Frame(ifn, {P_ROOT: Opaque("root", ast.Module), P_SYMT: Opaque("st", object), P_CFG: Opaque("cfg", object)}, ifn.globals, [], name="convert")
                 m.run(m.exec_block(pre, fr))
                 # arbitrary state: a parent is suspended, a new node is about to be converted
                 events = []
@@ -274,15 +275,29 @@ def g_convert_step(R, tier):
                 holder["child"] = child
                 # the REAL closures get_pending_node / pending_top (defined by the prefix) see
                 # these stacks through the frame they close over
-                fr.locals["pending_node_stack"] = pstack
-                fr.locals["nsp_stack"] = nstack
+                # (the loop state is identified by ROLE in the locals the real prefix left: the
+                #  namespace stack is the list holding the global namespace, the pending stack the
+                #  empty list, the node to convert the local holding the root, the pending result
+                #  the local holding None; the lists are changed IN PLACE so that every alias and
+                #  closure of the real code sees the generic state)
+                L = fr.locals
+                ns_lists = [k for k, v_ in L.items() if isinstance(v_, list) and len(v_) == 1 and v_[0] is G]
+                p_lists = [k for k, v_ in L.items() if isinstance(v_, list) and v_ == []]
+                todo = [k for k, v_ in L.items() if v_ is L[P_ROOT] and k != P_ROOT]
+                nones = [k for k, v_ in L.items() if v_ is None]
+                if not (len(ns_lists) == 1 and len(p_lists) == 1 and len(todo) == 1 and len(nones) == 1):
+                    raise Unsupported(f"loop state of convert() not identified: namespace stack {ns_lists}, pending stack {p_lists}, node {todo}, pending result {nones}")
+                L[p_lists[0]][:] = pstack
+                pstack = L[p_lists[0]]
+                L[ns_lists[0]][:] = nstack
+                nstack = L[ns_lists[0]]
                 top_ns = nstack[-1]
                 node = Opaque("node", ast.stmt, cands=frozenset([ast.Pass]))
-                fr.locals["tobe_converted"] = node
-                fr.locals["result_nodes"] = None
-                fr.locals["nsp_global"] = G
+                L[todo[0]] = node
+                L[nones[0]] = None
+                TODO_VAR = todo[0]
                 sig = m.run(m.exec_block(loop.body, fr))
-                return dict(events=events, pstack=pstack, nstack=nstack, fr=fr.locals, sig=sig, node=node, ns_at_dispatch=ns_at_dispatch, child=child, parent=parent, top_ns=top_ns,
+                return dict(events=events, pstack=pstack, nstack=nstack, fr=fr.locals, sig=sig, node=node, todo_var=TODO_VAR, ns_at_dispatch=ns_at_dispatch, child=child, parent=parent, top_ns=top_ns,
                             inner_ns=inner_ns, child_result=child_result, lowerP=lowerP, lowerN=lowerN, G=G)
             paths = explore(run)
             nm = f"{base}[{arm},{'own-namespace' if has_ns else 'no-namespace'}]"
@@ -290,7 +305,7 @@ def g_convert_step(R, tier):
                 continue
             for p in paths:
                 if p.kind != "ok":
-                    R.fail(f"{nm}/no-unexpected-raise", repr(p.value))
+                    fail_or_gap(R, f"{nm}/no-unexpected-raise", p)
                     continue
                 v = p.value
                 ev = v["events"]
@@ -300,13 +315,13 @@ def g_convert_step(R, tier):
                 if arm == "child-requests-another-node":
                     okp = v["pstack"][-1] is v["child"] and (v["nstack"][-1] is v["inner_ns"]) == has_ns and len(v["nstack"]) == (3 if has_ns else 2)
                     R.check(f"{nm}/child-pushed-with-its-namespace", okp, f"{v['pstack']} {v['nstack']}")
-                    R.check(f"{nm}/requested-node-is-converted-next", isinstance(v["fr"]["tobe_converted"], Opaque) and v["fr"]["tobe_converted"].tag == "next-node" and v["sig"] is None, repr(v["fr"]["tobe_converted"]))
+                    R.check(f"{nm}/requested-node-is-converted-next", isinstance(v["fr"][v["todo_var"]], Opaque) and v["fr"][v["todo_var"]].tag == "next-node" and v["sig"] is None, repr(v["fr"][v["todo_var"]]))
                 elif arm == "child-finished-parent-continues":
                     R.check(f"{nm}/finished-child-popped-with-its-namespace", v["pstack"] == [v["lowerP"], v["parent"]] and len(v["nstack"]) == 2, f"{v['pstack']} {v['nstack']}")
                     gr = [e for e in ev if e[0] == "child.get_result"]
                     ps = [e for e in ev if e[0] == "parent.send"]
                     R.check(f"{nm}/get_result-once-and-its-value-sent-to-the-parent", len(gr) == 1 and len(ps) == 1 and ps[0][1] is v["child_result"], repr(ev))
-                    R.check(f"{nm}/parent's-next-request-is-converted-next", isinstance(v["fr"]["tobe_converted"], Opaque) and v["fr"]["tobe_converted"].tag == "parent-next-node", repr(v["fr"]["tobe_converted"]))
+                    R.check(f"{nm}/parent's-next-request-is-converted-next", isinstance(v["fr"][v["todo_var"]], Opaque) and v["fr"][v["todo_var"]].tag == "parent-next-node", repr(v["fr"][v["todo_var"]]))
                 else:
                     ok = v["sig"] is not None and v["sig"][0] == "return"
                     R.check(f"{nm}/returns-the-sequenced-result-of-the-root", ok and isinstance(v["sig"][1], Opaque) and v["sig"][1].props.get("sem", (0,))[0] == "seq"
